@@ -39,11 +39,16 @@ WALL_BUDGET = {"quick": 900, "thorough": 3600}
 
 # ------------------------------------------------------------------------------------------------------------
 # plan: exhaustive sequences are chunked by their first two operations so that shards get equal work
-def alphabet(nb):
+BOGUS = ("bogus", "bogusl", "bogusenterg", "bogusenterl")
+
+
+def alphabet(nb, all_bogus=False):
     ops = []
     for b in range(nb):
         ops += [("setg", b), ("setl", b), ("enterg", b), ("enterl", b)]
     ops += [("bogus", None), ("exit", None), ("exitx", None), ("query", None)]
+    if all_bogus:
+        ops += [(b, None) for b in BOGUS[1:]]
     return ops
 
 
@@ -68,7 +73,8 @@ def plan(tier, seed):
 def floors(tier):
     return {"histories/exhaustive_backend": 30000, "histories/exhaustive_tenalg": 30000, "histories/random_backend": 50, "histories/random_tenalg": 50,
             "histories/cross_manager": 30, "stress_runs": 20, "observations": 300000, "dispatched_calls_checked": 300000, "rejected_selections": 10000,
-            "context_exits/normal": 5000, "context_exits/exception": 5000, "stress_yield_injections": 1000}
+            "context_exits/normal": 5000, "context_exits/exception": 5000, "stress_yield_injections": 1000, "stress_dispatched_calls": 5000,
+            "rejected_by/bogusenterg": 1000, "rejected_by/bogusenterl": 1000, "rejected_by/bogusl": 1000}
 
 
 def bounds(tier):
@@ -196,9 +202,15 @@ def do_op(m, stack, op, arg):
     if op == "setl":
         api.set_backend(m.names[arg], local_threadsafe=True)
         return "ok"
-    if op == "bogus":
+    if op in BOGUS:
         try:
-            api.set_backend("no-such-backend", local_threadsafe=bool(arg))
+            if op in ("bogus", "bogusl"):
+                api.set_backend("no-such-backend", local_threadsafe=(op == "bogusl"))
+            else:
+                # a context whose entry is rejected was never entered: nothing to leave, nothing may change
+                cm = api.backend_context("no-such-backend", local_threadsafe=(op == "bogusenterl"))
+                cm.__enter__()
+                stack.append(cm)
         except ValueError:
             return "rejected"
         except Exception as e:  # noqa
@@ -254,7 +266,7 @@ def model_step(states, t, op, b):
         elif op == "setl":
             priv_l[t] = b
             out.add((g, tuple(priv_l), stacks))
-        elif op in ("bogus", "query"):
+        elif op in BOGUS or op == "query":
             out.add((g, priv, stacks))
         elif op in ("enterg", "enterl"):
             prev = priv[t] if priv[t] is not None else g
@@ -317,10 +329,12 @@ def run_history(ctx, mname, hist, nthreads, nb, label):
     for step, (t, op, b) in enumerate(hist):
         bname = m.names[b] if b is not None else None
         outcome = workers[t].call("op", mname, op, b)
-        if op == "bogus":
+        if op in BOGUS:
             ctx.count("rejected_selections")
+            ctx.count("rejected_by/" + op)
             if outcome != "rejected":
-                ctx.violation("C17:%s:rejected-selection:%s" % (mname, outcome), "set_backend('no-such-backend') outcome %s (expected ValueError)" % outcome, {"history": hist[:step + 1]})
+                ctx.violation("C17:%s:rejected-selection:%s" % (mname, outcome), "%s with an unknown backend name: outcome %s (expected ValueError)" % (
+                    "set_backend" if op in ("bogus", "bogusl") else "backend_context", outcome), {"history": hist[:step + 1]})
                 return False
         if op in ("exit", "exitx") and outcome not in ("ok", "noop"):
             ctx.violation("C17:%s:context-exit:%s" % (mname, outcome), "leaving backend_context (%s) %s" % ("by exception" if op == "exitx" else "normally", outcome),
@@ -368,7 +382,9 @@ def run_case(case, ctx):
         n = 0
         for rest in itertools.product(range(len(alpha)), repeat=L - 2):
             seq = pre + [alpha[i] for i in rest]
-            hist = [(t, op, b) for (t, (op, b)) in seq]
+            # the single "rejected selection" letter stands for its four spellings (set / context entry x global / thread-local),
+            # which the model treats alike: rotate through them by position so that each occurs in every context
+            hist = [(t, (BOGUS[(k + t + len(seq) * case["prefix"][0] + case["prefix"][1]) % 4] if op == "bogus" else op), b) for k, (t, (op, b)) in enumerate(seq)]
             # an exit with nothing to leave is a no-op identical to `query`: such sequences are covered by their query twin
             depth, redundant = [0, 0], False
             for t_, op_, _b in hist:
@@ -396,7 +412,7 @@ def run_case(case, ctx):
         nb = 3 if mname == "backend" else 2
         nt = 3
         length = int(rs.randint(30, 201))
-        alpha = alphabet(nb)
+        alpha = alphabet(nb, all_bogus=True)
         w = np.array([3 if op[0] in ("exit", "exitx") else 1 for op in alpha], dtype=float)
         hist = []
         for _ in range(length):
@@ -415,7 +431,7 @@ def run_case(case, ctx):
         hist = []
         for _ in range(int(rs.randint(10, 40))):
             mn = gen.choice(rs, ["backend", "tenalg"])
-            op, b = gen.choice(rs, alphabet(2))
+            op, b = gen.choice(rs, alphabet(2, all_bogus=True))
             t = int(rs.randint(2))
             hist.append((mn, t, op, b))
             workers[t].call("op", mn, op, b)
@@ -451,6 +467,7 @@ def stress(ctx, mname, rs, case):
     nops = 300
     errors = []
     inj = [0]
+    ndisp = [0]
     stop = threading.Event()
     seeds = [int(rs.randint(0, 2 ** 31 - 1)) for _ in range(nact)]
 
@@ -462,6 +479,9 @@ def stress(ctx, mname, rs, case):
         mon.use_tool_id(tool, "tlv-c17")
         from tensorly.backend import BackendManager
         codes = {BackendManager.set_backend.__func__.__code__, BackendManager.backend_context.__func__.__wrapped__.__code__, BackendManager.current_backend.__func__.__code__}
+        disp = getattr(getattr(m.api, m.marker), "__code__", None)   # the dispatch wrapper shared by all dynamically dispatched functions
+        if disp is not None:
+            codes.add(disp)
 
         def on_line(code, line):
             if code in codes:
@@ -514,6 +534,13 @@ def stress(ctx, mname, rs, case):
                         errors.append(("own-view", i, k, mine, seen))
                         stop.set()
                         return
+                    m.tls.ran_on = None
+                    getattr(m.api, m.marker)(*m.marker_args)
+                    ndisp[0] += 1
+                    if m.tls.ran_on != mine:
+                        errors.append(("dispatch", i, k, mine, m.tls.ran_on))
+                        stop.set()
+                        return
                     time.sleep(0)
             except Exception as e:  # noqa
                 errors.append(("exception", i, k, type(e).__name__, str(e)[:100]))
@@ -553,6 +580,7 @@ def stress(ctx, mname, rs, case):
                 pass
     ctx.count("stress_runs")
     ctx.count("stress_yield_injections", inj[0])
+    ctx.count("stress_dispatched_calls", ndisp[0])
     ctx.nontriv({"gen": "stress", "idx": case["idx"], "m": mname})
     ctx.sample({"gen": "stress_" + mname, "actors": nact, "local_only": local_only, "ops_per_actor": nops, "yield_injections": inj[0]}, 1)
     if errors:
